@@ -457,10 +457,10 @@ Section Contain.
     (r = SHang /\ s = st) \/ exists a, r = SOk a /\ k a = Hang s.
   Proof. intros A [a| |w|] pfx st k s H; cbn in H; try discriminate; [right; eauto|left; inversion H; auto]. Qed.
 
-  (* the loader hangs only when the discovery worklist of Model/Loader.v runs out of budget on a graph
-     with imports (C15: it never does when the reachable part of the graph is finite) *)
-  (* the loader hangs only when the discovery worklist of Model/Loader.v runs out of budget while reading
-     imported packages from a real file system (load_no_fuel: it never does on a finite import graph) *)
+  (* the loader hangs only when the discovery worklist of Model/Loader.v runs out of the budget it was handed,
+     while reading imported packages from a non-nil file system.  The budget is part of the adversary's
+     files_beh: nothing here says it is large enough.  load_no_fuel gives the budget that suffices on a graph
+     whose reachable part is finite. *)
   Lemma load_imports_hang : forall nilfs topPkg top fb, load_imports_model unq nilfs topPkg top fb = SHang ->
     exists p ps imports nodes budget, nilfs = false /\ top_imports unq (kids_of top) = Some (p :: ps) /\
       fb = FRet imports nodes budget /\
@@ -485,36 +485,52 @@ Section Contain.
   Lemma run_hang : forall b, run_model b = SHang -> b = RHang.
   Proof. intros [|s|] H; cbn in H; try discriminate; [|reflexivity]. destruct (bt_err_ok _ _ _ _); discriminate. Qed.
 
+  (* an entry point that does not return: either the run stage of THIS entry was handed a behaviour that does
+     not return, or loadImports -- on the tokens, the tree and the file system of THIS entry -- ran out of
+     its discovery budget.  (That one of the two stages is named follows from the types of the adversary alone:
+     the scanner, parser and compiler behaviours have no "does not return" constructor.  The content is the
+     link to the entry's own components.) *)
   Theorem hang_stage : forall e s, entry_model unq e = Hang s ->
-    s = SRun \/ (s = SLoad /\ exists nilfs topPkg top fb, load_imports_model unq nilfs topPkg top fb = SHang).
+    (s = SRun /\ match e with
+                 | EEval _ _ a => ea_rimp a = RHang \/ ea_run a = RHang
+                 | ELoad _ _ _ a => la_run a = RHang
+                 | ECall _ b | EFunc _ b => b = FnHang
+                 end) \/
+    (s = SLoad /\ match e with
+       | EEval n _ a => exists toks tree, tokenize_model (ea_scan a) = SOk toks /\ parse_model toks (ea_parse a) = SOk tree /\
+                          load_imports_model unq n "" tree (ea_files a) = SHang
+       | ELoad n p _ a => exists nodes, la_top a = TopRet nodes /\
+                          load_imports_model unq n p (TNode "_" "_" nodes) (la_files a) = SHang
+       | _ => False
+       end).
   Proof.
     intros [n o a|n p o a|x b|x b] s H; cbn [entry_model] in H.
     - unfold eval_model in H.
-      apply bind_hang in H as [[E _]|(tokens & _ & H)]; [destruct (ea_scan a); discriminate|].
-      apply bind_hang in H as [[E _]|(tree & _ & H)]; [destruct tokens; cbn in E; [discriminate|destruct (ea_parse a); discriminate]|].
-      apply bind_hang in H as [[E ->]|(pkgs & _ & H)]; [right; split; [reflexivity|eauto 6]|].
+      apply bind_hang in H as [[E _]|(tokens & Et & H)]; [destruct (ea_scan a); discriminate|].
+      apply bind_hang in H as [[E _]|(tree & Ep & H)]; [destruct tokens; cbn in E; [discriminate|destruct (ea_parse a); discriminate]|].
+      apply bind_hang in H as [[E ->]|(pkgs & _ & H)]; [right; split; [reflexivity|eauto]|].
       destruct (split_last pkgs) as [[imps top]|]; [|discriminate].
       apply bind_hang in H as [[E _]|(kc0 & _ & H)]; [destruct (ea_cimp a); discriminate|].
-      apply bind_hang in H as [[_ ->]|(u & _ & H)]; [left; reflexivity|].
+      apply bind_hang in H as [[E ->]|(u & _ & H)]; [left; split; [reflexivity|left; apply run_hang; exact E]|].
       destruct (negb (tree_dump_ok (tree_dump o) [top])); [discriminate|].
       apply bind_hang in H as [[E _]|(kc & _ & H)]; [destruct (ea_comp a); discriminate|].
       destruct (negb (code_dump_ok (code_dump o) (fst kc) (snd kc))); [discriminate|].
-      apply bind_hang in H as [[_ ->]|(u' & _ & H)]; [left; reflexivity|discriminate].
-    - unfold load_model in H. destruct (la_top a) as [top| |]; try discriminate.
-      apply bind_hang in H as [[E ->]|(pkgs & _ & H)]; [right; split; [reflexivity|eauto 6]|].
+      apply bind_hang in H as [[E ->]|(u' & _ & H)]; [left; split; [reflexivity|right; apply run_hang; exact E]|discriminate].
+    - unfold load_model in H. destruct (la_top a) as [nodes| |] eqn:Et; try discriminate.
+      apply bind_hang in H as [[E ->]|(pkgs & _ & H)]; [right; split; [reflexivity|eauto]|].
       destruct (negb (tree_dump_ok (tree_dump o) pkgs)); [discriminate|].
       apply bind_hang in H as [[E _]|(kc & _ & H)]; [destruct (la_comp a); discriminate|].
       destruct (negb (code_dump_ok (code_dump o) (fst kc) (snd kc))); [discriminate|].
-      apply bind_hang in H as [[_ ->]|(u' & _ & H)]; [left; reflexivity|].
+      apply bind_hang in H as [[E ->]|(u' & _ & H)]; [left; split; [reflexivity|apply run_hang; exact E]|].
       destruct (la_rets a); discriminate.
     - left. unfold call_model, func_model in H. destruct b as [len keys|st|]; cbn in H.
       + destruct ((0 <=? x) && (x <=? len))%Z; [discriminate|]. destruct (bt_err_ok _ _ _ _); discriminate.
       + destruct (bt_err_ok _ _ _ _); discriminate.
-      + inversion H; reflexivity.
+      + inversion H; split; reflexivity.
     - left. unfold func_model in H. destruct b as [len keys|st|]; cbn in H.
       + destruct ((0 <=? x) && (x <=? len))%Z; [discriminate|]. destruct (bt_err_ok _ _ _ _); discriminate.
       + destruct (bt_err_ok _ _ _ _); discriminate.
-      + inversion H; reflexivity.
+      + inversion H; split; reflexivity.
   Qed.
 End Contain.
 
